@@ -179,7 +179,23 @@ static void history(uint64_t idx, rng_t *r) {
         case OP_ADDRANGE:
         case OP_REMOVERANGE: {
             uint32_t lo, hi;
-            switch (rng_below(r, 6)) {
+            static uint32_t lastlo[NSLOT], lasthi[NSLOT];
+            if (g_step == 0) memset(lasthi, 0, sizeof lasthi);
+            unsigned pick = (unsigned)rng_below(r, 8);
+            if (pick >= 6 && lasthi[s] > lastlo[s]) {
+                /* a range placed relative to the previous range of this object: overlapping, touching, one-value gap */
+                if (pick == 6) {
+                    lo = lasthi[s] + (uint32_t)rng_below(r, 4) - 1;
+                    hi = lo + 1 + (uint32_t)rng_below(r, rng_chance(r, 1, 2) ? 50 : 6000);
+                } else {
+                    hi = lastlo[s] + (uint32_t)rng_below(r, 4) - 2;
+                    uint32_t len = 1 + (uint32_t)rng_below(r, rng_chance(r, 1, 2) ? 50 : 6000);
+                    lo = hi > len ? hi - len : 0;
+                }
+                if ((int32_t)lo < 0) lo = 0;
+                STAT_INC("c08_ranges_adjacent_to_previous_range");
+            } else
+            switch (pick % 6) {
             case 0: lo = wbase + (uint32_t)rng_below(r, wlen); hi = lo + (uint32_t)rng_below(r, 100); break;          /* short */
             case 1: lo = wbase; hi = wbase + 3990 + (uint32_t)rng_below(r, 220); break;                                   /* around 4096 */
             case 2: lo = (uint32_t)rng_below(r, 30000); hi = lo + 4097 + (uint32_t)rng_below(r, 30000); break;           /* long (> 4096) */
@@ -189,6 +205,10 @@ static void history(uint64_t idx, rng_t *r) {
             }
             if (hi > 65535) hi = 65535;
             if (lo > 65535) lo = 65535;
+            if (op == OP_ADDRANGE && hi > lo) {
+                lastlo[s] = lo;
+                lasthi[s] = hi;
+            }
             snprintf(g_opargs, sizeof g_opargs, "slot %d [%s card %u], [%u,%u)", s, TN[before], MOD[s]->card, lo, hi);
             if (op == OP_ADDRANGE) {
                 varintBitmapAddRange(OBJ[s], (uint16_t)lo, (uint16_t)hi);
@@ -218,6 +238,26 @@ static void history(uint64_t idx, rng_t *r) {
             uint32_t cnt = rng_chance(r, 1, 2) ? 4000 + (uint32_t)rng_below(r, 201) : (uint32_t)rng_below(r, 300);
             uint16_t *vals = malloc(cnt * 2 ? cnt * 2 : 1);
             for (uint32_t i = 0; i < cnt; i++) vals[i] = (uint16_t)(wbase + rng_below(r, wlen));
+            unsigned shape = (unsigned)rng_below(r, 4);
+            if (shape && cnt >= 2) {
+                /* structured batches: ascending; ascending above the current maximum; ascending except the tail */
+                if (cnt > 400 && rng_chance(r, 1, 2)) cnt = 16 + (uint32_t)rng_below(r, 300);
+                uint32_t start = wbase;
+                if (shape >= 2) { /* above every current member */
+                    start = 0;
+                    for (int v = 65535; v >= 0; v--) if (m_has(MOD[s], (uint32_t)v)) { start = (uint32_t)v + 1; break; }
+                }
+                uint32_t v = start;
+                for (uint32_t i = 0; i < cnt; i++) {
+                    vals[i] = (uint16_t)(v > 65535 ? 65535 : v);
+                    v += 1 + (uint32_t)rng_below(r, 4);
+                }
+                if (shape == 3) { /* the last element (or two) out of order / repeated */
+                    vals[cnt - 1] = rng_chance(r, 1, 2) ? vals[rng_below(r, cnt - 1)] : (uint16_t)(vals[0] > 3 ? vals[0] - 1 - rng_below(r, 3) : 0);
+                    if (rng_chance(r, 1, 3) && cnt > 3) vals[cnt - 2] = vals[cnt - 3];
+                }
+                STAT_INC("c08_structured_addmany_batches");
+            }
             snprintf(g_opargs, sizeof g_opargs, "slot %d [%s card %u], %u values in [%u,%u)", s, TN[before], MOD[s]->card, cnt, wbase, wbase + wlen);
             varintBitmapAddMany(OBJ[s], vals, cnt);
             for (uint32_t i = 0; i < cnt; i++) m_add(MOD[s], vals[i]);
